@@ -92,14 +92,15 @@ type world struct {
 	eng  *engine.ControllerEngine
 	infs *gatedInfs
 
-	informers map[schema.GroupVersionKind]*fakeInformer
-	insts     []*fakeController // instance id = index + 1
-	running   map[string]int    // controller name -> instance, from the returns of Start / Stop
-	stopped   map[int]bool
-	refs      []string        // composed wids some XR references
-	drefs     []string        // ... those referenced only by an XR that is being deleted
-	byG       map[int64]*proc // goroutine id -> the operation it runs
-	probe     *probeResult
+	informers  map[schema.GroupVersionKind]*fakeInformer
+	insts      []*fakeController // instance id = index + 1
+	running    map[string]int    // controller name -> instance, from the returns of Start / Stop
+	stopped    map[int]bool
+	refs       []string        // composed wids some XR references
+	drefs      []string        // ... those referenced only by an XR that is being deleted
+	byG        map[int64]*proc // goroutine id -> the operation it runs
+	probe      *probeResult
+	failRemove bool // the next RemoveEventHandler call fails (one shot)
 
 	// scheduler
 	gated bool
@@ -209,6 +210,10 @@ func (i *fakeInformer) AddEventHandlerWithResyncPeriod(h kcache.ResourceEventHan
 func (i *fakeInformer) RemoveEventHandler(reg kcache.ResourceEventHandlerRegistration) error {
 	i.w.mu.Lock()
 	defer i.w.mu.Unlock()
+	if i.w.failRemove {
+		i.w.failRemove = false
+		return fmt.Errorf("informer: cannot remove event handler (injected)")
+	}
 	if r, ok := reg.(*registration); ok {
 		delete(r.inf.regs, r.id)
 	}
@@ -504,8 +509,14 @@ func (w *world) exec(s step) opResult {
 		}
 		return opResult{r: errStr(err)}
 	case "Stop":
+		if s.R == "err" { // the model's StopFails: the first handler removal of this Stop fails
+			w.mu.Lock()
+			w.failRemove = true
+			w.mu.Unlock()
+		}
 		err := w.eng.Stop(ctx, s.C)
 		w.mu.Lock()
+		w.failRemove = false
 		if err == nil {
 			if i := w.running[s.C]; i != 0 {
 				w.stopped[i] = true
